@@ -568,6 +568,14 @@ func (f *front) arm(fault string, n int) {
 	f.mu.Unlock()
 }
 
+// rearm forgets the requests seen so far and arms n faults of the given kind.
+func (f *front) rearm(fault string, n int) {
+	f.mu.Lock()
+	f.log = nil
+	f.armed, f.fault, f.faults = true, fault, n
+	f.mu.Unlock()
+}
+
 func (f *front) attempts() []attempt {
 	f.mu.Lock()
 	defer f.mu.Unlock()
